@@ -667,7 +667,7 @@ class Reciprocal(Transform):
 
     def _backward(self, y):
         nu = self.params.values[0]
-        return np.where(y < - self.mininu, - 1. / y - nu, np.nan)
+        return np.where(y < 0, - 1. / y - nu, np.nan)
 
     def _jacobian(self, x):
         nu = self.params.values[0]
